@@ -612,3 +612,19 @@ Definition named_callback_mismatch (prefixes : list (string * string * string))
     | Some (_, _, pre) => if str_in (String.append pre nm) syms then [] else [(cls, prop, nm)]
     | None => [(cls, prop, nm)]
     end) named.
+
+(* ------------------------------------------------------------------ well-formedness of a computed layout (executable) *)
+Fixpoint nonoverlap_b (lo : Z) (ms : list (string * Z * Z)) (hi : Z) : bool :=
+  match ms with
+  | [] => lo <=? hi
+  | (_, o, s) :: r => (lo <=? o) && (0 <=? s) && nonoverlap_b (o + s) r hi
+  end.
+Definition rl_wellformed (is_union : bool) (l : rlayout) : bool :=
+  (0 <=? rl_size l) && (0 <? rl_align l) && (rl_size l mod rl_align l =? 0) &&
+  (if is_union then forallb (fun m => (snd (fst m) =? 0) && (0 <=? snd m) && (snd m <=? rl_size l)) (rl_members l)
+   else nonoverlap_b 0 (rl_members l) (rl_size l)).
+Definition all_wellformed (unions : list bool) (ls : option (list rlayout)) : bool :=
+  match ls with
+  | Some l => (Nat.eqb (length l) (length unions)) && forallb (fun p => rl_wellformed (fst p) (snd p)) (combine unions l)
+  | None => false
+  end.
